@@ -1,5 +1,6 @@
 """C05 - Competing flows: exactly one most-specific action wins per interaction loop."""
 import ast
+import re
 
 from ..pycfg import CFG, walk_no_nested
 from ..pyflow import ReachingDefs
@@ -192,12 +193,19 @@ def run(ctx):
         ov = sorts[0].targets[0].id
         rev = isinstance(kw.get("reverse"), ast.Constant) and kw["reverse"].value is True
         key = kw.get("key")
-        keyok = isinstance(key, ast.Lambda) and "matching_scores" in src(key.body) and isinstance(key.body, (ast.BinOp, ast.Attribute))
-        if isinstance(key, ast.Lambda) and isinstance(key.body, ast.BinOp):
-            keyok = keyok and isinstance(key.body.op, ast.Add) and src(key.body.left).endswith(".matching_scores")
+        # key = scores padded with exact-match scores (1.0) to the longest chain of the group:
+        # a shorter chain is an exact match and must not lose against a longer chain with the same prefix
+        keyok = False
+        if isinstance(key, ast.Lambda) and isinstance(key.body, ast.BinOp) and isinstance(key.body.op, ast.Add) and src(key.body.left).endswith(".matching_scores"):
+            r = key.body.right
+            if isinstance(r, ast.BinOp) and isinstance(r.op, ast.Mult) and src(r.left) == "[1.0]" and isinstance(r.right, ast.BinOp) and isinstance(r.right.op, ast.Sub) \
+                    and src(r.right.right) == "len(%s)" % src(key.body.left):
+                mx = src(r.right.left)
+                mdef = [a for a in gl.body if isinstance(a, ast.Assign) and isinstance(a.targets[0], ast.Name) and a.targets[0].id == mx]
+                keyok = bool(mdef) and re.match(r"^max\(\(?len\(", src(mdef[0].value)) is not None and "matching_scores" in src(mdef[0].value) and src(c.args[0]) in src(mdef[0].value)
         src_group = src(c.args[0]) == (gl.target.id if isinstance(gl.target, ast.Name) else "")
         okd = rev and keyok and src_group
-        msg = "heads of the group are sorted by their (padded) score list in descending order (reverse=%s, key ok=%s)" % (rev, keyok)
+        msg = "heads of the group are sorted in descending order by their score chain padded with 1.0 to the longest chain (reverse=%s, padded key=%s)" % (rev, keyok)
         ctx.check("C05.d.order", SM, unit, "sort", okd, msg, line=sorts[0].lineno)
         # the tie prefix
         idx = [s for s in gl.body if isinstance(s, ast.Assign) and isinstance(s.value, ast.Call) and isinstance(s.value.func, ast.Name) and s.value.func.id == "next"]
